@@ -12,6 +12,7 @@ type Expr struct {
 	Left  string // binding
 	Op    string // = < >
 	Right Operand
+	Swap  bool // written with the operands exchanged (constant first): Right Op Left
 	// not / paren: A; and / or: (A) op B   (the left operand is always parenthesised)
 	A, B *Expr
 }
@@ -30,6 +31,9 @@ func (e *Expr) Render() string {
 		r := e.Right.Text
 		if e.Right.Binding != "" {
 			r = e.Right.Binding
+		}
+		if e.Swap {
+			return r + " " + e.Op + " " + e.Left
 		}
 		return e.Left + " " + e.Op + " " + r
 	case "not":
@@ -94,6 +98,9 @@ func (e *Expr) Eval(row map[string]Val) (result bool, crossKind bool) {
 			}
 		default:
 			c = CompareVals(l, r)
+		}
+		if e.Swap {
+			c = -c // written Right Op Left
 		}
 		switch e.Op {
 		case "=":
